@@ -9,6 +9,7 @@ import (
 	"fmt"
 	"reflect"
 	"regexp"
+	"sort"
 	"strconv"
 	"strings"
 
@@ -424,6 +425,10 @@ func evaluateCollectionExpression(expression *grammar.CollectionExpression, datu
 			return false, fmt.Errorf("%s can only iterate over maps indexed with strings", expression.Op)
 		}
 		keys = v.MapKeys()
+		// Go randomizes map iteration order; visit the keys in sorted order so
+		// that the outcome (which element decides, which error is reported)
+		// is a function of the datum alone.
+		sort.Slice(keys, func(i, j int) bool { return keys[i].String() < keys[j].String() })
 	}
 
 	switch v.Kind() {
